@@ -263,3 +263,83 @@ def all_paths_raise(fn, exc_name=None):
 def find_forward_call(fn, recv_pred, method):
     """Calls `<recv>.<method>(...)` in fn where recv_pred(receiver text) holds."""
     return [c for c in calls_in(fn, tail=method) if call_recv(c) is not None and recv_pred(call_recv(c))]
+
+
+# --------------------------------------------------------------------------- AST patterns with metavariables
+import re as _re
+
+_META = _re.compile(r"^_[A-Z][A-Za-z0-9]*$")
+_PCACHE = {}
+
+
+def _parse_pattern(src):
+    if src not in _PCACHE:
+        tree = ast.parse(src)
+        if len(tree.body) != 1:
+            raise AnalysisError(f"pattern must be one statement/expression: {src}")
+        st = tree.body[0]
+        _PCACHE[src] = st.value if isinstance(st, ast.Expr) else st
+    return _PCACHE[src]
+
+
+def pmatch(pat, node, env=None):
+    """Structural match of pattern AST `pat` against `node`. Names `_X`, `_Key` ... in the pattern are metavariables
+    that match any expression (the same one at every occurrence). Returns the binding dict or None."""
+    env = {} if env is None else env
+    if isinstance(pat, ast.Name) and _META.match(pat.id):
+        if not isinstance(node, ast.AST) or isinstance(node, (ast.stmt,)):
+            return None
+        t = U(node)
+        if pat.id in env:
+            return env if env[pat.id] == t else None
+        env[pat.id] = t
+        return env
+    if type(pat) is not type(node):
+        return None
+    if isinstance(pat, ast.Constant):
+        return env if (type(pat.value) is type(node.value) and pat.value == node.value) else None
+    for f in pat._fields:
+        if f in ("ctx", "type_comment", "lineno", "col_offset", "end_lineno", "end_col_offset", "kind"):
+            continue
+        pv, nv = getattr(pat, f, None), getattr(node, f, None)
+        if isinstance(pv, list):
+            if not isinstance(nv, list) or len(pv) != len(nv):
+                return None
+            if f == "keywords":
+                nk = {k.arg: k for k in nv}
+                for k in pv:
+                    if k.arg not in nk or pmatch(k.value, nk[k.arg].value, env) is None:
+                        return None
+                continue
+            for a, b in zip(pv, nv):
+                if isinstance(a, ast.AST):
+                    if pmatch(a, b, env) is None:
+                        return None
+                elif a != b:
+                    return None
+        elif isinstance(pv, ast.AST):
+            if not isinstance(nv, ast.AST) or pmatch(pv, nv, env) is None:
+                return None
+        else:
+            if pv != nv:
+                return None
+    return env
+
+
+def find_pattern(root, src, stmts_only=None):
+    """All (node, bindings) inside `root` (function def: its body, nested defs excluded) matching pattern `src`."""
+    pat = _parse_pattern(src)
+    want_stmt = isinstance(pat, ast.stmt)
+    out = []
+    it = body_walk(root) if isinstance(root, (ast.FunctionDef, ast.AsyncFunctionDef)) else walk_no_nested(root, include_lambda=True)
+    for n in it:
+        if want_stmt != isinstance(n, ast.stmt):
+            continue
+        b = pmatch(pat, n, {})
+        if b is not None:
+            out.append((n, b))
+    return out
+
+
+def has_pattern(root, src):
+    return bool(find_pattern(root, src))
